@@ -1212,8 +1212,12 @@ fn run_many(rt: &tokio::runtime::Runtime, cases: Vec<Vec<u64>>, par: usize, out:
                 let (queue, done) = (queue.clone(), done.clone());
                 std::thread::spawn(move || loop {
                     let Some((i, mut c)) = queue.lock().unwrap().pop() else { break };
+                    let t0 = Instant::now();
                     let t = std::panic::catch_unwind(std::panic::AssertUnwindSafe(|| crate::c07_loop::run_loop(&mut c)))
                         .unwrap_or(vec![PANIC_MARK]);
+                    if std::env::var("C07_LOOP_TIMING").is_ok() {
+                        eprintln!("loop case {:?} ms {}", &c, t0.elapsed().as_millis());
+                    }
                     done.lock().unwrap().push((i, c, t));
                 })
             })
